@@ -676,6 +676,8 @@ def c16(run, op, ctx, after):
     r = ctx.get("resp")
     if kind == "propfind" and r is not None and r.status == 207:
         check_depth(run, op, ctx, after)
+    elif kind == "propfind" and r is not None and r.status >= 500:
+        run.v("C16", "C16.propfind-failed", "PROPFIND %s Depth %s (%s) -> %s" % (op["path"], op.get("depth"), op.get("kind"), r.status), request=op.get("kind"))
     if kind == "post" and ctx.get("location") and ctx.get("success"):
         raw = dav.href_path(ctx["location"], w.target(op["coll"]))
         g = w.req("GET", target=raw)
